@@ -40,6 +40,36 @@ CLAIMS = {
         technique="Andersen-style points-to + effect analysis over the resolved call graph (ast)", ref="5/C10"),
 }
 
+CLAIMS.update({
+    "C02": dict(
+        text="Structural part only: pipeline partial order in solve() by CFG dominance (validate, build, reachability, unconditional restriction, pruning iff flag, reward solve, read results), "
+             "reward kernels reward+SUM/MAX/MIN over the whole successor list with (0,0,0) for an empty list, sweep over all states storing the three results in slot order with stop rule over all three changes, "
+             "restriction by the very strategies that are reported; conditioning rules C03.1-3/5 re-evaluated. Decides that part and NOT convergence / closeness to the conditioned game's value.",
+        note="Trusted: ast, sa/ engines, spec rows in sa/rules/C02.py. Assumes rewards >= 0.",
+        technique="CFG dominance + symbolic kernel/sweep normal forms (ast)", ref="5/C02"),
+    "C05": dict(
+        text="Inclusion final-subset-of-reachability decided as a chain of static facts valid for all games (restriction by reported strategies dominates the reward solve; restriction is FILTER(action in best) without fallback; "
+             "no later write can add a transition; labels drawn from the state's own list; extraction after the sweep). Optimal-set clause as ARGSET_MAX/MIN normal forms + role table. Numerical optimality NOT decided.",
+        note="Trusted: ast, sa/ engines. Assumes action labels of one state are distinct.",
+        technique="CFG dominance chain + symbolic arg-set/filter normal forms (ast)", ref="5/C05"),
+    "C06": dict(
+        text="Exception discipline and known crash/hang shapes: raise census (all ValueError), 'no solution' guard exactly R[0]==0 and flag after the sweep, implicit exception sources "
+             "(iterator invalidation, fold-aware definite assignment of arg successors, guarded [0] subscripts, no recursion, division only by surviving mass). "
+             "Termination of the two convergence loops is NOT decided (only structural necessary conditions C01.4/C02.3).",
+        note="Trusted: ast, sa/ engines. Element domains: rewards >= 0, probabilities in [0,1] and > 0 on transitions.",
+        technique="raise census + guard normal form + fold-aware definite assignment + CFG dominance (ast)", ref="5/C06"),
+    "C13": dict(
+        text="Structural sources of presentation dependence: no iterator invalidation, every successor-list consumer is a commutative fold / arg-set in list order / order-preserving filter (no break, slice, positional access, tolerance-band optimum), "
+             "label and index opacity, pruning decisions read only data fixed before the sweep. Float effects of sweep/summation order are NOT decided (within tolerance by the property's wording).",
+        note="Trusted: ast, sa/ engines, canaries/opacity.py.",
+        technique="fold classification of every successor-list consumer + opacity scan (ast)", ref="5/C13"),
+    "C14": dict(
+        text="Definitional part: both diagnostics are evaluations along the reported choices (P1 follows arg-max successor of expected rewards; P2 follows arg-min for 'probability under min reward' and MIN over exactly its rounded "
+             "reachability-minimising action set for 'reward under min reachability'; probabilistic averages; seeding from reachability for every state; stop rule includes both). Numerical agreement with an independent policy evaluation NOT decided.",
+        note="Trusted: ast, sa/ engines. Domain excludes reward ties (property wording).",
+        technique="symbolic kernel normal forms with arg-successor tracking (ast)", ref="5/C14"),
+})
+
 NOT_YET = {}
 
 ALL = ["C%02d" % i for i in range(1, 18)]
